@@ -29,6 +29,8 @@ for sd in sorted(d for d in os.listdir(os.path.join(VERIF, "seeded")) if os.path
             m = re.search(r"monitor hits (\d+)", last)
             if m and int(m.group(1)) > 0:
                 parts.append("monitor found a failing history")
+            if not parts:
+                parts.append("translator could not extract the state machines (factoring check failed)")
             how = "; ".join(parts) + (" — no failing input found" if viol and "no-failing-input-found" in viol[0] else "")
     v = ver.get(sd)
     meta = {"property": pid, "what": notes.strip().split("\n\n")[0][:600],
